@@ -607,6 +607,7 @@ func (vc *VC) execConvert(x *ssa.Convert, st *State) {
 		t := fmt.Sprintf("(str.of.bytes (select %s (s-arr %s)) (s-off %s) (s-len %s))", vc.heap(st, hn, hs), v, v, v)
 		vc.setVal(x, t)
 		vc.assume(fmt.Sprintf("(and (>= %s 0) (= (strlen %s) (s-len %s)))", vc.vals[x], vc.vals[x], v))
+		vc.strRoundTrip()
 	case isByteSlice(to) && isStringType(from):
 		vc.d.declFun("bytes.of.str", "(declare-fun bytes.of.str (Int) (Array Int Int))")
 		r := vc.bumpAlloc(st)
@@ -1051,4 +1052,16 @@ func (vc *VC) havocDeferred(c *ssa.CallCommon, st *State) bool {
 	}
 	vc.noteTrusted("deferred " + named.Obj().Name() + "." + m.Name() + " calls registered in a loop: their recorded effects are forgotten (any number of calls)")
 	return true
+}
+
+// strRoundTrip: []byte(string(b)) has the bytes of b (stated once, for all byte arrays).
+func (vc *VC) strRoundTrip() {
+	if _, ok := vc.d.funs["bytes.of.str"]; !ok {
+		vc.d.declFun("bytes.of.str", "(declare-fun bytes.of.str (Int) (Array Int Int))")
+	}
+	if _, ok := vc.d.funs["str.rt!axiom"]; ok {
+		return
+	}
+	vc.d.declFun("str.rt!axiom", "")
+	vc.d.axioms = append(vc.d.axioms, "(assert (forall ((c!a (Array Int Int)) (o!a Int) (l!a Int) (i!a Int)) (! (=> (and (<= 0 i!a) (< i!a l!a)) (= (select (bytes.of.str (str.of.bytes c!a o!a l!a)) i!a) (select c!a (+ o!a i!a)))) :pattern ((select (bytes.of.str (str.of.bytes c!a o!a l!a)) i!a)))))")
 }
